@@ -38,7 +38,7 @@ random.seed(7)
 random.shuffle(cands)
 out = []
 tag = rel.replace('/', '_')
-log = open(f'' + os.environ.get('SWEEP_OUT', '/var/tmp/ms') + '/result_{tag}.jsonl', 'a')
+log = open(os.path.join(os.environ.get('SWEEP_OUT', '/var/tmp/ms'), f'result_{tag}.jsonl'), 'a')
 n = 0
 for (i, a, b, rep) in cands:
     if n >= maxn: break
